@@ -493,6 +493,7 @@ def _find_assign_eq(s):
 
 _fn_head = re.compile(r'^fn (.+?)\((.*)\)(?: -> (.+?))? \{$')
 _const_head = re.compile(r'^(?:const|static|static mut) (.+?): (.+?) = \{$')
+_promoted_head = re.compile(r'^const (.+::promoted\[\d+\]): (.+?) = \{$')
 _let_re = re.compile(r'^\s*let (?:mut )?_(\d+): (.+);$')
 _bb_head = re.compile(r'^\s*bb(\d+)(?: \(cleanup\))?: \{$')
 
@@ -520,7 +521,7 @@ def parse_file(path):
                     cur.ret = m.group(3) or '()'
                     continue
                 if line.startswith('const ') or line.startswith('static '):
-                    m = _const_head.match(line)
+                    m = _promoted_head.match(line) or _const_head.match(line)
                     if m:
                         cur = Function(m.group(1), 'const')
                         cur.ret = m.group(2)
